@@ -281,6 +281,8 @@ type Sym struct {
 	// the callee's own path conditions (loop-free callees only).
 	Expand  bool
 	ord     map[*ssa.Function]map[ssa.Value]string
+	stored  map[*ssa.Function]map[string]bool
+	loadOrd map[*ssa.Function]map[*ssa.UnOp]int
 	keyMemo map[symKey]string
 	busy    map[symKey]bool
 }
@@ -291,7 +293,7 @@ type symKey struct {
 }
 
 func NewSym(w *World) *Sym {
-	return &Sym{w: w, names: map[ssa.Value]string{}, Expand: true, ord: map[*ssa.Function]map[ssa.Value]string{}, keyMemo: map[symKey]string{}, busy: map[symKey]bool{}}
+	return &Sym{w: w, names: map[ssa.Value]string{}, Expand: true, ord: map[*ssa.Function]map[ssa.Value]string{}, stored: map[*ssa.Function]map[string]bool{}, loadOrd: map[*ssa.Function]map[*ssa.UnOp]int{}, keyMemo: map[symKey]string{}, busy: map[symKey]bool{}}
 }
 
 func (s *Sym) Name(v ssa.Value, n string) { s.names[v] = n }
@@ -540,10 +542,11 @@ func (s *Sym) key1(v ssa.Value, ctx *symCtx) string {
 				}
 			}
 			k := s.Key(x.X, ctx)
+			tag := s.loadTag(x)
 			if strings.HasPrefix(k, "&") {
-				return k[1:]
+				return k[1:] + tag
 			}
-			return "*" + k
+			return "*" + k + tag
 		case token.NOT:
 			return "!" + s.Key(x.X, ctx)
 		case token.SUB:
@@ -595,6 +598,64 @@ func (s *Sym) key1(v ssa.Value, ctx *symCtx) string {
 	return fmt.Sprintf("?%T:%s", v, v.Name())
 }
 
+// loadTag keeps loads of one memory location apart when the function they
+// stand in also stores to that field (or element type): names are not flow
+// sensitive, so two such loads may see different values.
+func (s *Sym) loadTag(ld *ssa.UnOp) string {
+	fn := ld.Parent()
+	if s.stored[fn] == nil {
+		m := map[string]bool{}
+		for _, b := range fn.Blocks {
+			for _, in := range b.Instrs {
+				if st, ok := in.(*ssa.Store); ok {
+					m[addrClass(st.Addr)] = true
+				}
+			}
+		}
+		s.stored[fn] = m
+	}
+	c := addrClass(ld.X)
+	if c == "" || !s.stored[fn][c] {
+		return ""
+	}
+	if s.loadOrd[fn] == nil {
+		s.loadOrd[fn] = map[*ssa.UnOp]int{}
+		n := map[string]int{}
+		for _, b := range fn.Blocks {
+			for _, in := range b.Instrs {
+				if u, ok := in.(*ssa.UnOp); ok && u.Op == token.MUL {
+					k := addrClass(u.X)
+					n[k]++
+					s.loadOrd[fn][u] = n[k]
+				}
+			}
+		}
+	}
+	return fmt.Sprintf("@%d", s.loadOrd[fn][ld])
+}
+
+// addrClass: which kind of location an address designates ("" for locals).
+func addrClass(a ssa.Value) string {
+	switch x := a.(type) {
+	case *ssa.FieldAddr:
+		if _, local := x.X.(*ssa.Alloc); local {
+			return ""
+		}
+		st := x.X.Type().Underlying().(*types.Pointer).Elem().Underlying().(*types.Struct)
+		return types.TypeString(x.X.Type(), nil) + "." + st.Field(x.Field).Name()
+	case *ssa.IndexAddr:
+		if _, local := x.X.(*ssa.Alloc); local {
+			return ""
+		}
+		return "elem:" + types.TypeString(x.X.Type(), nil)
+	case *ssa.Global:
+		return "global:" + x.Name()
+	case *ssa.Alloc:
+		return ""
+	}
+	return "ptr:" + types.TypeString(a.Type(), nil)
+}
+
 func (s *Sym) callKey(c *ssa.Call, ctx *symCtx) string {
 	cc := c.Common()
 	name := pcCalleeName(cc)
@@ -630,7 +691,21 @@ func (s *Sym) callKey(c *ssa.Call, ctx *symCtx) string {
 			}
 		}
 	}
-	return base + s.ord[fn][c]
+	return base + s.ord[fn][c] + s.ctxTag(ctx)
+}
+
+// ctxTag tells apart the calls a helper makes in its several invocations.
+func (s *Sym) ctxTag(ctx *symCtx) string {
+	t := ""
+	for ; ctx != nil && ctx.call != nil; ctx = ctx.parent {
+		if c, ok := ctx.call.(*ssa.Call); ok {
+			s.callKey(c, ctx.parent) // make sure the ordinals exist
+			if o := s.ord[c.Parent()][c]; o != "" {
+				t += "@" + o
+			}
+		}
+	}
+	return t
 }
 
 // rawCallKey: context-free structural key, used only to number calls.
@@ -778,16 +853,13 @@ func (s *Sym) expandCall(c *ssa.Call, idx, nres int, ctx *symCtx, d int) *pcF {
 			return nil
 		}
 	}
-	// callees that write nothing themselves; what they call stays an atom
+	// what the callee calls stays an atom; loads of fields it stores to are
+	// kept apart by loadTag
 	for _, b := range fn.Blocks {
 		for _, in := range b.Instrs {
-			switch y := in.(type) {
-			case *ssa.Go, *ssa.Defer, *ssa.MapUpdate, *ssa.Send, *ssa.Panic:
+			switch in.(type) {
+			case *ssa.Go, *ssa.Defer, *ssa.Send, *ssa.Panic:
 				return nil
-			case *ssa.Store:
-				if !storesIntoFresh(y.Addr) {
-					return nil
-				}
 			}
 		}
 	}
@@ -798,7 +870,10 @@ func (s *Sym) expandCall(c *ssa.Call, idx, nres int, ctx *symCtx, d int) *pcF {
 		if !ok {
 			continue
 		}
-		out = pcOrF(out, pcAndF(s.PathCond(fn.Blocks[0], b, nctx), s.cond(ret.Results[idx], nctx, d+1)))
+		if b == fn.Recover {
+			continue
+		}
+		out = pcOrF(out, pcAndF(s.PathCond(fn.Blocks[0], b, nctx), s.cond(unspill(ret.Results[idx]), nctx, d+1)))
 	}
 	return out
 }
@@ -1040,15 +1115,44 @@ func sliceLiteral(v *ssa.Slice) []ssa.Value {
 	return out
 }
 
+// unspill: in a function with defers the results are stored into cells and
+// read back after rundefers; the value returned is the one stored last in
+// the same block.
+func unspill(v ssa.Value) ssa.Value {
+	ld, ok := v.(*ssa.UnOp)
+	if !ok || ld.Op != token.MUL {
+		return v
+	}
+	a, ok := ld.X.(*ssa.Alloc)
+	if !ok {
+		return v
+	}
+	b := ld.Block()
+	seen := false
+	for i := len(b.Instrs) - 1; i >= 0; i-- {
+		if b.Instrs[i] == ssa.Instruction(ld) {
+			seen = true
+			continue
+		}
+		if !seen {
+			continue
+		}
+		if st, ok := b.Instrs[i].(*ssa.Store); ok && st.Addr == ssa.Value(a) {
+			return st.Val
+		}
+	}
+	return v
+}
+
 // ResultCond: the boolean result of a loop-free function as a formula.
 func (s *Sym) ResultCond(fn *ssa.Function, ctx *symCtx) *pcF {
 	out := pcZ
 	for _, b := range fn.Blocks {
 		ret, ok := b.Instrs[len(b.Instrs)-1].(*ssa.Return)
-		if !ok || len(ret.Results) != 1 {
+		if !ok || len(ret.Results) != 1 || b == fn.Recover {
 			continue
 		}
-		out = pcOrF(out, pcAndF(s.PathCond(fn.Blocks[0], b, ctx), s.Cond(ret.Results[0], ctx)))
+		out = pcOrF(out, pcAndF(s.PathCond(fn.Blocks[0], b, ctx), s.Cond(unspill(ret.Results[0]), ctx)))
 	}
 	return out
 }
@@ -1238,10 +1342,10 @@ func (s *Sym) retTable(fn *ssa.Function, idx int) []retRow {
 	var out []retRow
 	for _, b := range fn.Blocks {
 		ret, ok := b.Instrs[len(b.Instrs)-1].(*ssa.Return)
-		if !ok || len(ret.Results) <= idx {
+		if !ok || len(ret.Results) <= idx || b == fn.Recover {
 			continue
 		}
-		v := ret.Results[idx]
+		v := unspill(ret.Results[idx])
 		if phi, ok := v.(*ssa.Phi); ok && phi.Block() == b {
 			// one return statement fed by several assignments: split
 			for i, e := range phi.Edges {
